@@ -577,9 +577,32 @@ def cases_sensors(rng, quick):
             yield cls + ".decode", method(C, "decode"), [plain, bytearray(msg), off, rng.choice(DATAS)], 0
         for msg, off in ODD_CALLS:
             yield cls + ".decode", method(C, "decode"), [plain, bytearray(msg) if msg is not None else None, off, None], 0
+    # --- frame versions helper (round 8, W1d): (frame type byte, `<H`) at self._offset
+    try:
+        FV = S("frame_versions", "FrameVersionsStructure")
+        for _ in range(n):
+            msg = mangle(rng, rbytes(rng, rng.choice([0, 1, 3])) + bytes([rng.choice([49, 50, 61, 54, 0, 200, rng.randrange(256)])]) + rbytes(rng, rng.choice([2, 2, 2, 1, 0, 4])))
+            k = rng.choice([0, 0, 1, 3, len(msg), len(msg) + 2, max(0, len(msg) - 3), max(0, len(msg) - 2)])
+            yield "FrameVersionsStructure._unpack_frame_versions", method(FV, "_unpack_frame_versions"), [sinst(_offset=k), bytearray(msg)], 0
+        yield "FrameVersionsStructure._unpack_frame_versions", method(FV, "_unpack_frame_versions"), [sinst(_offset=-2), bytearray(b"\x01\x02\x03")], 0
+        yield "FrameVersionsStructure._unpack_frame_versions", method(FV, "_unpack_frame_versions"), [plain, bytearray(b"\x01\x02\x03")], 0
+    except (ImportError, AttributeError):
+        pass
     for C, nm in ((T, "ThermostatSensorsStructure"), (M, "MixerSensorsStructure")):
         for msg, off in ODD_CALLS:
             yield nm + ".decode", method(C, "decode"), [plain, bytearray(msg) if msg is not None else None, off, None], 0
+
+
+# the value of `a / b` on ints is the exact rational in the prelude (`Py.ratioV a b`, shown `float{num=a,den=b,*=None}`); the
+# Python side has the float CPython answered: the float nearest to a / b (TRUSTED contract of `Py.truediv`), computed here by
+# CPython's own int / int — so what is compared are the OPERANDS the translated code divides
+import re  # noqa: E402
+
+RATIO = re.compile(r"float\{num=(-?\d+),den=(\d+),\*=None\}")
+
+
+def ratio_show(m):
+    return show(int(m.group(1)) / int(m.group(2)))
 
 
 GROUPS = {"sensors": cases_sensors, "frame": cases_frame, "schedule": cases_schedule, "uid": cases_uid, "params": cases_params, "requests": cases_requests,
@@ -625,6 +648,7 @@ def check(res, rng, tier, groups):
             inputs.append(dict(function=name, args=[repr(a) for a in args], fuel=fuel))
     answers = driver_batch(reqs)
     for line, exp, ans, inp in zip(reqs, expect, answers, inputs):
+        ans = RATIO.sub(ratio_show, ans)
         res.case(("pycode", line))
         fn = inp["function"]
         if ans.startswith("err unsupported"):
